@@ -79,8 +79,8 @@ def evaluate(d):
         a = [fr(x) for x in d["a"]]
         fa = F(tuple(float(x) for x in a))
         wa = wv(w, a)
-        if exact(fa.wvalues) != wa:
-            return Case(d, [], [], oracle="weighted values %r are not value*weight %r" % (fa.wvalues, wa), tag=k)
+        # (the internal representation `wvalues` is not part of the statement: it is compared with the model's
+        #  through the `vals` protocol line only; the oracle below uses the independently computed `wa`)
     if k in ("cmp", "dom"):
         b = [fr(x) for x in d["b"]]
         fb = F(tuple(float(x) for x in b))
@@ -90,8 +90,6 @@ def evaluate(d):
         want = [lex_lt(wa, wb), lex_lt(wa, wb) or wa == wb, lex_lt(wb, wa), lex_lt(wb, wa) or wa == wb,
                 wa == wb, wa != wb]
         orc = None if got == want else "operators %s differ from lexicographic comparison %s of weighted values" % (bits(got), bits(want))
-        if hash(fa) != hash(fa.wvalues):
-            orc = "hash differs from hash of weighted values"
         return Case(d, ["C01 cmp %s %s %s" % (slist(w), slist(a), slist(b))], [bits(got)], orc,
                     tag="cmp/n=%d" % len(w), nontrivial=(a != b))
     if k == "dom":
@@ -123,8 +121,9 @@ def evaluate(d):
         out = "%s %s %s %s %s" % (slist(exact(fa.wvalues)), slist(exact(back)), bits([fa.valid]),
                                   bits([cl == fa]), bits([hash(cl) == hash(fa)]))
         orc = None
-        if exact(back) != tuple(a):
-            orc = "values read back %r differ from assigned %r" % (back, a)
+        if all(x in (1, -1) for x in w) and exact(back) != tuple(a):
+            # the statement promises the read-back for weights +1/-1; other weights are compared with the model only
+            orc = "values read back %r differ from assigned %r (weights +-1)" % (back, a)
         elif not fa.valid:
             orc = "fitness with assigned values reports invalid"
         elif not (cl == fa) or cl != fa or cl < fa or cl > fa or not cl.valid or cl is fa or exact(cl.values) != tuple(a):
@@ -154,23 +153,59 @@ def evaluate(d):
         return Case(d, ["C01 hist %s %s" % (slist(w), " ".join(toks))],
                     ["%s %s" % (bits(vbits), slist(exact(f.values)))], orc, tag="hist/len=%d" % len(d["ops"]),
                     nontrivial=len(d["ops"]) > 1)
+    if k == "chist":
+        F = fit_class(w, constrained=True)
+        f = F()
+        toks, obs, orc = [], [], None
+        want_valid, last = False, None
+        for op in d["ops"]:
+            if op == "del":
+                del f.values
+                toks.append("del"); want_valid = False
+            elif isinstance(op, dict):
+                cv = op["cv"]
+                f.constraint_violation = None if cv is None else list(cv)
+                toks.append("cv=" + ("none" if cv is None else (",".join(str(int(c)) for c in cv) or "-")))
+            else:
+                vals = [fr(x) for x in op]
+                f.values = tuple(float(x) for x in vals)
+                toks.append(slist(vals)); want_valid = True; last = vals
+            viol = base._violates_constraint(f)
+            obs.append(bits([f.valid, viol]) + ("c" if f.constraint_violation is not None else "n"))
+            if orc is None and f.valid != want_valid:
+                orc = "constrained fitness reports valid=%s after %s" % (f.valid, toks[-1])
+            if orc is None and want_valid and exact(f.values) != tuple(last) and all(x in (1, -1) for x in w):
+                orc = "values read back differ from the last assignment"
+            if orc is None and not want_valid and len(f.values) != 0:
+                orc = "values %r still readable after deletion" % (f.values,)
+            if orc is None and viol and f.valid:
+                orc = "an evaluated fitness counts as constraint-violating"
+        return Case(d, ["C01 chist %s %s" % (slist(w), " ".join(toks))],
+                    ["%s %s" % (",".join(obs), slist(exact(f.values)))], orc, tag="chist/len=%d" % len(d["ops"]))
     if k == "ccmp":
         F = fit_class(w, constrained=True)
 
         def mk(vals, cv):
             v = tuple(float(fr(x)) for x in vals) if vals else ()
-            return F(v, None if cv is None else [bool(c) for c in cv])
+            return F(v, None if cv is None else list(cv))
         fa, fb = mk(d["a"], d["cva"]), mk(d["b"], d["cvb"])
-        va, vb = base._violates_constraint(fa), base._violates_constraint(fb)
+        # who violates is decided from the case description (unevaluated, record present, positive sum),
+        # not by asking the implementation
+        def viol(vals, cv):
+            return (not vals) and cv is not None and sum(int(c) for c in cv) > 0
+        va, vb = viol(d["a"], d["cva"]), viol(d["b"], d["cvb"])
+        ia, ib = base._violates_constraint(fa), base._violates_constraint(fb)
         got = [fa < fb, fa <= fb, fa > fb, fa >= fb, fa == fb, fa != fb]
         dom = fa.dominates(fb)
         cl = copy.deepcopy(fa)
         out = "%s %s %s %s" % (bits(got), bits([dom]), bits([va, vb]),
                                bits([cl == fa, base._violates_constraint(cl)]))
         orc = None
+        if (ia, ib) != (va, vb):
+            orc = "_violates_constraint says %s/%s, the definition (unevaluated, record with positive sum) %s/%s" % (ia, ib, va, vb)
         # the statement: a violating fitness never compares better than, equal to, or dominating a
         # feasible evaluated one
-        if va and fb.valid and not vb:
+        if orc is None and va and fb.valid and not vb:
             if fa > fb or fa >= fb or fa == fb or dom or not (fa != fb):
                 orc = "violating fitness compares better/equal/dominating vs feasible evaluated one: %s dom=%s" % (bits(got), dom)
         if vb and fa.valid and not va:
@@ -186,7 +221,7 @@ def evaluate(d):
         if orc is None and (not (cl == fa) or base._violates_constraint(cl) != va or cl.valid != fa.valid):
             orc = "clone of a constrained fitness does not compare equal to its original (violation flags lost)"
         kinds = ("viol" if va else "eval" if fa.valid else "uneval") + "-" + ("viol" if vb else "eval" if fb.valid else "uneval")
-        cvs = lambda cv: "none" if cv is None else (",".join("1" if c else "0" for c in cv) or "-")
+        cvs = lambda cv: "none" if cv is None else (",".join(str(int(c)) for c in cv) or "-")
         return Case(d, ["C01 ccmp %s %s %s %s %s" % (slist(w), slist([fr(x) for x in d["a"]]), cvs(d["cva"]),
                                                      slist([fr(x) for x in d["b"]]), cvs(d["cvb"]))],
                     [out], orc, tag="ccmp/" + kinds, nontrivial=(fa.valid or fb.valid))
@@ -244,7 +279,7 @@ def generate(tier, rng, mult):
                         for sl in (sls if n <= 2 else rng.sample(sls, 3)):
                             yield {"k": "dom", "w": list(w), "a": a, "b": b, "slice": sl}
     # constrained: every kind pair x flag vectors
-    cvs = [None, [], [False], [True], [False, False], [True, False], [False, True, True]]
+    cvs = [None, [], [False], [True], [False, False], [True, False], [False, True, True], [2, -1], [1, -1], [-3, 1]]
     for w in (["1"], ["-1"], ["1", "-1"], ["-2", "-1/2"]):
         n = len(w)
         tuples = [[]] + [list(map(str, t)) for t in itertools.product([0, 1], repeat=n)]
@@ -253,6 +288,28 @@ def generate(tier, rng, mult):
                 for cva in cvs:
                     for cvb in cvs:
                         yield {"k": "ccmp", "w": w, "a": a, "cva": cva, "b": b, "cvb": cvb}
+    # constrained histories (assignment / violation record / deletion in every order)
+    cvops = [{"cv": None}, {"cv": [True]}, {"cv": [False]}, {"cv": [1, -1]}]
+    for w in (["1"], ["-1", "2"]):
+        vs = [[str(i + 1) for i in range(len(w))], ["0"] * len(w)]
+        atoms = ["del"] + vs + cvops
+        for L in (1, 2, 3):
+            for ops in itertools.product(atoms, repeat=L):
+                yield {"k": "chist", "w": w, "ops": list(ops)}
+    # near-ties: values one or a few ulps apart (weights +-1 keep the products exact)
+    import math
+    for _ in range(400 * mult):
+        n = rng.randint(1, 4)
+        w = [rng.choice(["1", "-1"]) for _ in range(n)]
+        a = [rng.choice([1.0, 0.3, 1e-9, 1e9, 0.1 + 0.2, 2.0 ** -30]) * rng.choice([1, -1]) for _ in range(n)]
+        b = list(a)
+        i = rng.randrange(n)
+        for _k in range(rng.randint(1, 3)):
+            b[i] = math.nextafter(b[i], math.inf if rng.random() < 0.5 else -math.inf)
+        a_s, b_s = [sfr(Fr(x)) for x in a], [sfr(Fr(x)) for x in b]
+        yield {"k": "cmp", "w": w, "a": a_s, "b": b_s}
+        yield {"k": "dom", "w": w, "a": a_s, "b": b_s, "slice": [None, None, None]}
+        yield {"k": "ccmp", "w": w, "a": a_s, "cva": None, "b": b_s, "cvb": None}
     # random
     nrand = (20000 if thorough else 3000) * mult
     for _ in range(nrand):
@@ -281,7 +338,7 @@ def generate(tier, rng, mult):
                 ops.append("del" if rng.random() < 0.4 else [rand_dyadic(rng) for _ in range(n)])
             yield {"k": "hist", "w": w, "ops": ops}
         else:
-            cv = lambda: rng.choice([None, [], [False], [True], [rng.random() < 0.5 for _ in range(3)]])
+            cv = lambda: rng.choice([None, [], [False], [True], [rng.random() < 0.5 for _ in range(3)], [rng.randint(-2, 2) for _ in range(3)]])
             yield {"k": "ccmp", "w": w, "a": a if rng.random() < 0.6 else [], "cva": cv(),
                    "b": b if rng.random() < 0.6 else [], "cvb": cv()}
 
